@@ -558,6 +558,23 @@ int runC03(int argc, char **argv)
                                            : heapStr(kFuncs[(r / 3) % 7]);
                 char *cat = (r % 9 == 0) ? nullptr : heapStr(kCats[(r / 2) % 8]);
                 char *text = heapStr("payload " + std::to_string(id) + " " + std::string(size_t(r % 40), char('a' + r % 26)));
+                // now and then a source location or a text far longer than anything hand-written (deeply templated Q_FUNC_INFO,
+                // generated paths, dumps): lengths around 2^10, 2^12 and 2^16, differing only in their last characters
+                static const size_t kLong[] = { 255, 256, 1023, 1024, 1025, 1500, 4095, 4096, 4097, 9000, 65535, 65536, 70000 };
+                const size_t longLen = kLong[(r / 7) % 13];
+                if (r % 37 == 0) {
+                    free(func);
+                    func = heapStr("void ns::T<" + std::string(longLen, 'A') + ">::f(" + std::to_string(id) + ")");
+                } else if (r % 41 == 0) {
+                    free(file);
+                    file = heapStr("p" + std::to_string(p) + "/" + std::string(longLen, 'd') + ".cpp"); // idOfLine() reads the leading p<k>
+                } else if (r % 43 == 0) {
+                    free(cat);
+                    cat = heapStr("long." + std::string(longLen, 'c') + "." + std::to_string(r));
+                } else if (r % 47 == 0) {
+                    free(text);
+                    text = heapStr("payload " + std::to_string(id) + " " + std::string(longLen, 'x') + std::to_string(id));
+                }
                 const qint64 before = QDateTime::currentMSecsSinceEpoch();
                 const long long tc = ticket();
                 if (target == "logger") {
